@@ -62,7 +62,8 @@ def decodeContentPack (f : Bytes) (decdir : String) : IO (Outcome DecPack) := do
   | r => return r.map' (fun _ => default)
 where default : DecPack := ⟨⟨.content, [], 0, 0, [], 0, 0, 0⟩, ⟨0, 0, 0, 0, []⟩, #[], #[], .err .other⟩
 
-def contentLine (d : DecPack) (flags : List Char) : String :=
+def contentLine (d : DecPack) (flagsL : List Char) : String :=
+  let flags := flagsL.toArray
   let items := (List.range d.infos.size).map (fun i =>
     let (cl, blob) := d.infos[i]!
     match d.clusters[cl]? with
@@ -73,8 +74,7 @@ def contentLine (d : DecPack) (flags : List Char) : String :=
       | some b =>
         let fl := flags.getD i 'd'
         let compStr := if fl = 'd' then "?" else toString c.tail.comp
-        if b.length ≠ (((0 :: c.tail.offsets) ++ [c.tail.dataSize]).getD (blob + 1) 0) - (((0 :: c.tail.offsets) ++ [c.tail.dataSize]).getD blob 0)
-        then "short"
+        if c.plain.length < c.tail.dataSize then "short"
         else s!"{b.length}:{hex64 (fnv64 b)}:{compStr}")
   s!"count={d.infos.size} check={verdict d.check} " ++ ",".intercalate items
 
@@ -110,8 +110,7 @@ def runContent (fileOf : String → IO Bytes) (op : String) (args : List String)
         let raw ← readFileBytes itemsfile
         let parts := splitItems raw spec
         -- compression decision per content: y/n from the hint, d(etect) read out of the file
-        let items : List Item := (List.range parts.length).map (fun i =>
-          let (data, fl) := parts.getD i ([], 'n')
+        let items : List Item := parts.zipIdx.map (fun ((data, fl), i) =>
           let comp :=
             if pc = 0 then false
             else if fl = 'y' then true
